@@ -498,6 +498,15 @@ def call_np(I, name, args, kwargs, node, fr):
                 else:
                     I.broadcast(dst, src, node, opname="copyto", inplace=True)
         return NoneV()
+    if name == "fill_diagonal":
+        x = args[0] if args else Top()
+        if isinstance(x, Arr) and len(x.axes) == 2:
+            a, b = x.axes
+            if a != b and a.symbolic and b.symbolic:
+                I.event("axis-mismatch", node, f"np.fill_diagonal of a matrix with different axes {x!r}")
+            I.usage(node, "fill_diagonal", a, "pairing")
+            return NoneV()
+        return Top("fill_diagonal")
     # ---------------- wider numpy surface (so that rewrites and defects using them are judged rather than unknown)
     if name in ("flip", "flipud", "fliplr", "roll"):
         x = args[0] if args else Top()
